@@ -32,8 +32,8 @@ def valid_addr(a):
     return n <= 4
 
 
-def template(ids, cost, no_children=()):
-    key = (tuple(ids), cost, tuple(no_children))
+def template(ids, cost, no_children=(), keep_queue=False):
+    key = (tuple(ids), cost, tuple(no_children), keep_queue)
     t = _templates.get(key)
     if t is None:
         specs = [{"key": "m", "cls": H.RF24Mesh, "node_id": 0, "name": "master"}]
@@ -42,14 +42,15 @@ def template(ids, cost, no_children=()):
                           "attrs": {"allow_children": False} if i in no_children else {}})
         t = N.Net(specs, cost_class=cost, horizon=60 * 1000 * MS)
         for i in no_children:
-            t.nodes[i].queue.max_queue_size = 1  # (documented attribute) one slot: any junk frame would block a real message
+            if not keep_queue:
+                t.nodes[i].queue.max_queue_size = 1  # (documented attribute) one slot: any junk frame would block a real message
         _templates[key] = t
     return t
 
 
 def run_case(case, chooser=None):
     ids = case["ids"]
-    net = copy.deepcopy(template(ids, case["cost"], case.get("no_children", ())))
+    net = copy.deepcopy(template(ids, case["cost"], case.get("no_children", ()), case.get("keep_queue", False)))
     net.w.activate()
     H.reset_frame_ids()
     net.lat = N.LAT[case["lat"]]
@@ -70,7 +71,10 @@ def run_case(case, chooser=None):
                 d = decided[key] = bool(chooser.choose(2, "frame:%s:%s" % (pkt.src.name, f["type"] if f else "raw")))
                 if d:
                     decided["__one__"] = True
-            # a lost frame is lost once (its retransmissions get through): single transient loss
+            # default: a lost frame is lost once (its retransmissions get through): single transient loss;
+            # fault_mode "forgood": every transmission of that frame (same node, same bytes) is lost
+            if d and case.get("fault_mode") == "forgood":
+                return True
             if d and key in decided.get("__used__", set()):
                 return False
             if d:
@@ -92,6 +96,8 @@ def run_case(case, chooser=None):
         def f(ctx):
             n = net.nodes[i]
             ctx.wait(1 * MS + case["offsets"][k])
+            while case.get("sequential") and joined[0] < k:
+                net.serve(ctx, i, 5 * MS, hook)  # strictly one join after the other
             t0 = w.now
             a = n.renew_address(timeout)
             obs["join"][i] = (a, w.now - t0, n.node_address)
@@ -123,6 +129,17 @@ def run_case(case, chooser=None):
                 # one message at a time: let the (unacknowledged-type) message reach its
                 # destination before the next request enters the network
                 net.serve(ctx, i, 30 * MS, hook)
+                # a second message of the same type to the same id while the first is still unread
+                # (not when the destination was given a one-slot queue)
+                if dest in case.get("no_children", ()) and not case.get("keep_queue"):
+                    return_after_first = True
+                else:
+                    return_after_first = False
+                msg2 = H.pattern(min(24, case.get("mlen", 5) + 1), case.get("seed", 0), 10)  # (single frame, other content)
+                if not return_after_first:
+                    p["send2"] = (dest, n.send(dest, 5, msg2), msg2)
+                    post(i, "send")
+                    net.serve(ctx, i, 30 * MS, hook)
             if case.get("unknown", True):
                 p["unknown_id"] = n.lookup_address(UNKNOWN_ID)
                 post(i, "lookup_address")
@@ -149,6 +166,16 @@ def run_case(case, chooser=None):
             t0 = w.now
             a2 = n.renew_address(timeout)
             p["rejoin"] = (a2, w.now - t0, n.node_address)
+            if a2 is not None and case.get("master_release", True):
+                # the master expires the lease with its documented release_address(address); the node
+                # still holds the address: lookups must show the master's CURRENT mapping
+                net.serve(ctx, i, 20 * MS, hook)
+                p["master_release"] = master.release_address(a2)
+                p["own_id_after_master_release"] = n.lookup_address(i)
+                post(i, "lookup_address")
+                p["ping_master_after_master_release"] = n.check_connection(1, True)
+                post(i, "check_connection")
+                master.set_address(i, a2)  # (give it back so that the remaining judgements stay simple)
             post(i, "renew_address")
             net.serve(ctx, i, 30 * MS, hook)
             p["table_after_rejoin"] = dict(master.dhcp_dict)
@@ -185,7 +212,7 @@ def judge(case, obs, pid=PID):
             v.append(("%s/join-invalid-address:%s" % (pid, shape), "renew_address() of id %d returned %r" % (i, a)))
         if a is not None and cur != a:
             v.append(("%s/join-address-mismatch:%s" % (pid, shape), "renew_address() of id %d returned %o but node_address is %o" % (i, a, cur)))
-        if not faulty:
+        if not faulty and not case.get("expect"):
             if a is None:
                 v.append(("%s/join-failed:%s" % (pid, shape), "renew_address() of id %d returned None after %.0f ms on a loss-free medium" % (i, dt / 1e6)))
             elif dt > timeout * 1e9:
@@ -202,6 +229,14 @@ def judge(case, obs, pid=PID):
     for i in ids:
         if i in obs["join"] and obs["join"][i][0] is not None and table.get(i) != obs["join"][i][0]:
             v.append(("%s/table-mismatch:%s" % (pid, shape), "id %d joined as %o but the master's table says %r" % (i, obs["join"][i][0], table.get(i))))
+    for name, want_addr in (case.get("expect") or {}).items():
+        i = int(name.split("-")[1])
+        got_addr = obs["join"].get(i, (None,))[0]
+        if got_addr != want_addr:
+            v.append(("%s/forced-chain:%s" % (pid, "none" if got_addr is None else ("reserved" if got_addr == O("4444") else "other")),
+                      "id %d joined as %s, the only place left for it was 0o%o (table %r)" % (
+                          i, ("0o%o" % got_addr) if got_addr is not None else None, want_addr, {k_: "0o%o" % a_ for k_, a_ in obs["table_end"].items()})))
+            break
     p = obs["probe"]
     if p:
         me = ids[0]
@@ -222,6 +257,13 @@ def judge(case, obs, pid=PID):
             if ret is not True or len(hits) != 1 or hits[0][0] != obs["join"][me][0]:
                 v.append(("%s/send-to-id:%s" % (pid, "lost" if not hits else ("dup" if len(hits) > 1 else "ret")),
                           "send(id %d) returned %r; destination queue holds %d matching frame(s)" % (to_id, ret, len(hits))))
+        if "send2" in p:
+            to_id, ret, msg2 = p["send2"]
+            q = obs["queues"][to_id]
+            hits = [g for g in q if g[3] == msg2 and g[2] == 5]
+            if ret is not True or len(hits) != 1:
+                v.append(("%s/send-to-id:second-%s" % (pid, "lost" if not hits else ("dup" if len(hits) > 1 else "ret")),
+                          "second send(id %d) of the same type returned %r; destination queue holds %d matching frame(s)" % (to_id, ret, len(hits))))
         if "unknown_id" in p and p["unknown_id"] != -2:
             v.append(("%s/unknown-id:%r" % (pid, p["unknown_id"] if p["unknown_id"] in (-1, 65534) else "other"),
                       "lookup_address(%d) for an unassigned id returned %r, documented -2" % (UNKNOWN_ID, p["unknown_id"])))
@@ -255,6 +297,14 @@ def judge(case, obs, pid=PID):
                 v.append(("%s/rejoin-failed" % pid, "renew_address() after release returned %r after %.0f ms" % (a2, dt / 1e6)))
             elif a2 in others or p.get("table_after_rejoin", {}).get(me) != a2:
                 v.append(("%s/rejoin-bad-address" % pid, "re-joined as %o; other nodes %r; table %r" % (a2, sorted(others), p.get("table_after_rejoin"))))
+    if p and "master_release" in p:
+        if p["master_release"] is not True:
+            v.append(("%s/master-release:returned-%r" % (pid, p["master_release"]), "master.release_address(leased address) returned %r" % (p["master_release"],)))
+        else:
+            if p["own_id_after_master_release"] != -2:
+                v.append(("%s/lookup-own-id-after-master-release" % pid, "lookup_address(own id) returned %r after the master dropped the lease, documented -2" % (p["own_id_after_master_release"],)))
+            if p["ping_master_after_master_release"] is not False:
+                v.append(("%s/check-connection:ping-master-after-master-release" % pid, "check_connection(ping_master=True) returned %r although the master no longer lists the node" % (p["ping_master_after_master_release"],)))
     vals = list(obs["table_end"].values())
     if len(set(vals)) != len(vals):
         v.append(("%s/table-duplicate-lease:%s" % (pid, shape), "master table maps two ids to one address: %r" % obs["table_end"]))
@@ -324,6 +374,10 @@ def build_items(tier, seed):
     # a connected node that refuses children must stay silent (and clean) when others poll its level
     cases.append(dict(ids=[21, 22, 23, 24, 25, 26, 27, 28], offsets=[j * 40 * MS for j in range(8)], cost=0, lat=0, seed=seed, mlen=7, tail=300,
                       no_children=[22, 23], send_to=1))
+    # (A chain forced down to level 4 through relay 0o444 - 11 sequential joiners, most with allow_children off -
+    # was tried and dropped: the unacknowledged, never repeated MESH_ADDR_RESPONSE of the last hop collides with a
+    # bystander's forwarding at exactly the same instant in every (identical) retry cycle of this jitter-free model,
+    # the symmetry artefact of section 2.3. The reserved-address corner of that chain is covered by C16.)
     if tier == "thorough":
         cases.append(dict(ids=[7, 8, 9, 10, 11, 12], offsets=[j * 300 * US for j in range(6)], cost=2, lat=0, seed=seed, mlen=5, tail=300))
         cases.append(dict(ids=list(range(31, 43)), offsets=[j * 30 * MS for j in range(12)], cost=0, lat=0, seed=seed, mlen=5, tail=300))
@@ -335,6 +389,8 @@ def build_items(tier, seed):
     # single lost frame, exhaustively over the frames of a one-node join (+ probe script)
     items.append(([dict(ids=[5], offsets=[0], cost=0, lat=0, seed=seed, script=True, unknown=False, timeout=2.0, max_execs=200 if tier == "quick" else 2000)], 1))
     items.append(([dict(ids=[5, 6], offsets=[0, 5 * MS], cost=0, lat=0, seed=seed, script=False, timeout=2.0, tail=100, max_execs=150 if tier == "quick" else 2000)], 1 if tier == "quick" else 2))
+    items.append(([dict(ids=[5], offsets=[0], cost=0, lat=0, seed=seed, script=False, timeout=1.2, tail=100, fault_mode="forgood", renew_connected=False,
+                        max_execs=120 if tier == "quick" else 1000)], 1 if tier == "quick" else 2))
     items.sort(key=lambda it: -(len(it[0][0]["ids"]) + 10 * it[1]))
     return items
 
